@@ -15,6 +15,7 @@ import (
 	sdk "github.com/cosmos/cosmos-sdk/types"
 	banktypes "github.com/cosmos/cosmos-sdk/x/bank/types"
 	govv1 "github.com/cosmos/cosmos-sdk/x/gov/types/v1"
+	paramproposal "github.com/cosmos/cosmos-sdk/x/params/types/proposal"
 	stakingtypes "github.com/cosmos/cosmos-sdk/x/staking/types"
 	abci "github.com/tendermint/tendermint/abci/types"
 	"pgregory.net/rapid"
@@ -291,7 +292,24 @@ func (d *abciDriver) genTx(label string) plannedTx {
 		// governance proposal carrying a custom-module parameter update
 		var inner sdk.Msg
 		what := ""
-		switch rapid.IntRange(0, 5).Draw(t, label+"_prop") {
+		switch rapid.IntRange(0, 7).Draw(t, label+"_prop") {
+		case 6, 7:
+			// governance changes a parameter of a neighbouring module (x/params proposal, as the standard modules of
+			// SDK 0.46 are governed): the bank's transfer switches, x/auth's memo size, staking's unbonding time,
+			// the community tax
+			ch := []paramproposal.ParamChange{
+				{Subspace: "bank", Key: "DefaultSendEnabled", Value: "true"}, {Subspace: "bank", Key: "DefaultSendEnabled", Value: "false"},
+				{Subspace: "bank", Key: "SendEnabled", Value: `[{"denom":"uc4e","enabled":true}]`}, {Subspace: "bank", Key: "SendEnabled", Value: `[{"denom":"uc4e","enabled":false}]`},
+				{Subspace: "bank", Key: "SendEnabled", Value: `[]`},
+				{Subspace: "auth", Key: "MaxMemoCharacters", Value: `"40"`}, {Subspace: "auth", Key: "MaxMemoCharacters", Value: `"512"`},
+				{Subspace: "staking", Key: "UnbondingTime", Value: `"60000000000"`}, {Subspace: "distribution", Key: "communitytax", Value: `"0.100000000000000000"`},
+			}[rapid.IntRange(0, 8).Draw(t, label+"_neighbour")]
+			lc, err := govv1.NewLegacyContent(paramproposal.NewParameterChangeProposal("t", "d", []paramproposal.ParamChange{ch}), GovAuthority())
+			if err != nil {
+				panic(err)
+			}
+			inner = lc
+			what = "neighbour_param:" + ch.Subspace + "/" + ch.Key
 		case 0, 1:
 			cur := app.CfeminterKeeper.GetMinterState(ctx).SequenceId
 			n := GenMinterCfg(t, 3, 30, 30)
